@@ -417,7 +417,7 @@ func (fc *fsCtx) ruleCreateGuard(r *Report, mem *fsImpl) {
 			// helpers shared with other methods (an allocator used by AtomicCreate too) are judged at Create's call site
 			rs := p.RelsAt(rm, in)
 			if g != f {
-				rs = relSet{}
+				// the helper's own dominating facts hold on every way into the update; Create's call-site facts are added
 				p.instrs(f, func(b2 *ssa.BasicBlock, i2 int, in2 ssa.Instruction) {
 					if c, ok := in2.(*ssa.Call); ok && calleeOf(&c.Call) == g {
 						for k := range p.RelsAt(p.Rels(f), c) {
